@@ -281,6 +281,9 @@ impl Table for DisplacedTable {
     fn clear(&mut self) {
         self.uf.reset();
         self.displaced.clear();
+        // `lookup_table` maps a displaced id to its row in `displaced`; stale
+        // entries would point past the end of the now-empty vector.
+        self.lookup_table.clear();
     }
 
     fn all(&self) -> Subset {
